@@ -247,6 +247,26 @@ def louv_segment_oracle(c, cl, seg, nodes, edges, want_repro):
         return msgs + ["louvain_partitions not called: too many earlier calls hang"]
     if codes[0] == 100:
         return msgs + ["louvain_partitions panics"]
+    # the guard of louvain_partitions (repair of F23): weighted = true and a stored edge with a negative weight
+    # (`w < 0.0`: never true for NaN) -> InvalidArgument (3) from both functions, and from nothing else
+    negative = bool(weighted) and any(w is not None and w == w and w < 0 for (_, _, w) in edges)
+    if negative:
+        if codes[0] != 3:
+            msgs.append("louvain_partitions with weighted=true on a graph with a negative edge weight: outcome %d, "
+                        "expected InvalidArgument (3)" % codes[0])
+        if len(codes) < 2:
+            msgs.append("louvain_communities not observed")
+        elif codes[1] == 101:
+            msgs.append("louvain_communities does not return (2 s watchdog)")
+        elif codes[1] != 3:
+            msgs.append("louvain_communities with weighted=true on a graph with a negative edge weight: outcome %d, "
+                        "expected InvalidArgument (3)" % codes[1])
+        if any(o[0] in (71, 1300, 1301) for o in seg):
+            msgs.append("levels reported although the call must be rejected")
+        return msgs
+    if codes[0] == 3:
+        return msgs + ["louvain_partitions returns InvalidArgument although no edge weight is negative%s"
+                       % ("" if weighted else " (weighted=false)")]
     if codes[0] != 0:
         return msgs + ["louvain_partitions returns error kind %d" % codes[0]]
     levels = [rows_level(o) for o in seg if o[0] == 1300]
@@ -648,6 +668,22 @@ def louvain_graph(r, nmax, i):
     return g
 
 
+def negative_variant(r3, edges, calls):
+    """the guard of louvain_partitions (F23): all weights integers, exactly one of them negative; the first call
+    weighted (must be rejected with InvalidArgument by both functions), then the same call unweighted (must
+    run as usual: the guard looks at the weights only when weighted = true); seeded, so that the model runs"""
+    edges = [(u, v, (1 + r3.below(4)) if w is None else w, a) for (u, v, w, a) in edges]
+    k = r3.below(len(edges))
+    u, v, w, a = edges[k]
+    edges[k] = (u, v, -(1 + r3.below(3)), a)
+    _, _, gn, gd, thr, sd = calls[0]
+    if sd < 0:
+        sd = r3.below(21)
+    calls = [("louv", 1, gn, gd, thr, sd), ("louv", 0, gn, gd, thr, sd)] + \
+            [("louv", 1, c[2], c[3], c[4], c[5] if c[5] >= 0 else r3.below(21)) for c in calls[1:]]
+    return edges, calls
+
+
 class C13Prop(CommProp):
     id = "C13"
     quick_n, thorough_n = 1500, 30000
@@ -656,12 +692,17 @@ class C13Prop(CommProp):
             "5th graph is 2-4 cliques of 2-4 nodes joined in a ring (up to 12 nodes, several aggregation levels); "
             "louvain_partitions + louvain_communities with weighted = (weights are integers, 90%), seed 0..20, "
             "resolution in {1/4,..,2} or None, threshold in {0, 1e-7, 0.1, None}; each call under a 2 s watchdog; "
-            "4% of graphs have no edge; 5% of calls are unseeded (oracle only).  The model receives the shuffle "
+            "4% of graphs have no edge; 5% of calls are unseeded (oracle only); every 40th graph (separate PRNG stream) "
+            "gets integer weights of which exactly one is negative (-1..-3) and is called weighted, unweighted, "
+            "[weighted]: both functions must answer the weighted calls with InvalidArgument (model: the guard; "
+            "oracle: InvalidArgument iff weighted and a stored weight < 0) and the unweighted one as usual.  "
+            "The model receives the shuffle "
             "order the implementation's rand version derives from the seed.  non-trivial = the result has a "
             "community with >= 2 nodes; distinct = distinct case text")
 
     def gen(self, seed, n):
         r = gv.SplitMix(seed * 1000003 + 13)
+        r3 = gv.SplitMix(seed * 7919 + 1323)      # separate stream: the other cases stay what they were
         cases = []
         for i in range(n):
             g = louvain_graph(r, 10, i)
@@ -671,7 +712,10 @@ class C13Prop(CommProp):
                 gn, gd = r.pick(GAMMAS_L + [(0, 0), (1, 1)])
                 sd = -1 if r.below(20) == 0 else r.below(21)
                 calls.append(("louv", weighted, gn, gd, r.pick([0, 1, 2, 3]), sd))
-            cases.append({"id": "l%d" % i, "spec": g["spec"], "nodes": g["nodes"], "edges": g["edges"],
+            edges = g["edges"]
+            if i % 40 == 17 and edges:
+                edges, calls = negative_variant(r3, edges, calls)
+            cases.append({"id": "l%d" % i, "spec": g["spec"], "nodes": g["nodes"], "edges": edges,
                           "calls": calls})
         return cases
 
@@ -687,10 +731,17 @@ class C13Prop(CommProp):
         for cl in c["calls"]:
             ks.append("weighted_%d" % cl[1])
             ks.append("thr_%d" % cl[4])
+        if any(e[2] is not None and e[2] < 0 for e in c["edges"]):
+            ks.append("negative_weight")
+            ks += ["outcome_%d" % ob[1][0][0] for ob in o[3:] if ob[0] == 1]
         return ks
 
     def classify_known(self, case, descr, known):
+        neg = any(e[2] is not None and e[2] < 0 for e in case["edges"]) and any(cl[1] for cl in case["calls"])
         for k in known:
+            if k["id"] == "F23" and neg and ("does not return" in descr or "expected InvalidArgument" in descr
+                                             or "implementation differs from the model" in descr):
+                return k
             if k["id"] == "F16" and case["spec"][0] == 1 and "does not return" in descr:
                 return k
             if k["id"] == "F17" and "not reproducible" in descr:
@@ -940,7 +991,14 @@ C13.manifest = {
             "(C13_level_ge_singletons per level; C13_convert_back_preserves_Q: the renaming preserves modularity; "
             "level graphs are faithful to the first working graph, same total weight, so the constant m is right on "
             "every level); C13_levels_monotone_partial - the same for every input incl. multigraphs, measured on the "
-            "first working graph. Round 1 (kept): "
+            "first working graph. (E) The guard of F23 (louvain.rs after 9619d10; first step of the model's "
+            "louvain_partitions): C13_negative_weights_rejected - weighted = true and a stored edge with a real negative "
+            "weight: louvain_partitions and louvain_communities return InvalidArgument for EVERY graph state, fuel, "
+            "shuffle table, resolution and threshold; C13_guard_false_on_domain - on the domain of (B)-(D) (weights_ok) "
+            "the guard is false, so those theorems are about the code after the guard; "
+            "C13_levels_monotone_any_weights - C13_levels_monotone without the hypothesis weights_ok (a returned value "
+            "means the guard was false, and the input's weighted edge list exists only if every edge has a weight). "
+            "Round 1 (kept): "
             "C13_check_levels_sound (verified checker), C13_communities_is_last, C13_move_gain_newman(_directed), "
             "C13_accepted_move_increases_Q(_directed), C13_move_only_if_strictly_better, C13_model_move_increases_Q, "
             "C13_aggregation_preserves_Q, C13_strict_chain_bounded, C13_move_gain(_directed).",
@@ -955,7 +1013,10 @@ C13.manifest = {
             "Newman's formula through that collapse is not proved (the oracle measures modularity on the "
             "implementation's own edge list; observation 75 evaluates the exact check on single-edge inputs, where it "
             "is now the theorem C13_levels_monotone). Domain of the numeric theorems: resolution >= 0, non-negative real "
-            "weights when weighted=true. The per-case flags are KEPT as ties between model and code: 74 "
+            "weights when weighted=true; negative weights under weighted=true are rejected by the modelled guard "
+            "(InvalidArgument, F23) - generated (every 40th graph), compared with the model (outcome code 3 on both "
+            "sides) and checked by the oracle (InvalidArgument iff weighted and a stored weight < 0); what stays outside "
+            "is a NaN weight under weighted=true (passes the guard like in the code; no NaN arithmetic in the model). The per-case flags are KEPT as ties between model and code: 74 "
             "(check_levels on the model's output - now a theorem for the model, C13_levels_partition_nested), 75 "
             "(monotone on the input graph - now C13_levels_monotone), 76 (generate_graph = aggregate - now "
             "C13_generate_graph_aggregates), 77 (L1-L3 after the first phase - now C13_bookkeeping). Correspondence: "
@@ -965,7 +1026,8 @@ C13.manifest = {
             "the exact model meets a tie between unequal operands (binary64 may round the two sides differently): "
             "there only outcome codes and checker verdicts are compared (about 12% of runs). The theorems are about "
             "exact arithmetic; cycling caused purely by binary64 drift in Stot is outside them. Defects F16 (hang on "
-            "digraphs, fix: 73bce3f) and F17 (hash-order ties, fix: 6c1ce46) repaired. Axioms: none.",
+            "digraphs, fix: 73bce3f), F17 (hash-order ties, fix: 6c1ce46) and F23 (no return on negative weights, fix: "
+            "9619d10, found by the C20 sweep) repaired. Axioms: none.",
     "technique": "Coq proof (loop invariants L1-L5 over the state-level model, potential-function termination, "
                  "aggregation) + verified checker + differential correspondence vs vm_compute model with the real RNG "
                  "stream + exact-arithmetic oracle with watchdog",
@@ -987,7 +1049,10 @@ C17.manifest = {
             "site, OutOfFuel); per stage: C17_compute_one_level_hash_order_independent, "
             "C17_generate_graph_hash_order_independent. The side conditions of the local lemmas are discharged "
             "(C17_weights2com_keys_distinct, C17_sorted_neighbours_canonical, C17_working_graph_edge_keys_distinct: "
-            "every working graph is WF and single-edge, the first one whatever the input state). Non-vacuity by "
+            "every working graph is WF and single-edge, the first one whatever the input state). The guard of F23 "
+            "(weighted and a stored weight < 0 -> InvalidArgument) is the same first step in both pipelines (an `any` "
+            "over the edge map is a boolean: no order reaches it), so the equalities still hold for ALL inputs. "
+            "Non-vacuity by "
             "vm_compute on the 4-cycle and the 12-cycle with a reversing and a stateful rotating oracle "
             "(C17_hash_order_oracles_satisfy_hypotheses, C17_hash_order_nonvacuous); control "
             "C17_raw_scan_is_order_sensitive (without the sort the order is observable). The model has no other hidden "
